@@ -1498,7 +1498,7 @@ class Inliner:
                 ys = [n for n in _walk_same_function(hfn) if isinstance(n, (ast.Yield, ast.YieldFrom))]
                 if ys and all(isinstance(y_, ast.Yield) and y_.value is not None for y_ in ys) and not any(r_.value is not None for r_ in _returns_in(hfn)) and not _has_return(hfn):
                     body, exprmap, pre, ok = self._bind(inner, hfn, recv, q)
-                    if ok and all(isinstance(getattr(p_, "_parent_stmt", None), type(None)) for p_ in []):
+                    if ok:
                         self.counter += 1
                         tmp = s.targets[0].id if isinstance(s.targets[0], ast.Name) and not any(isinstance(n_, ast.Name) and n_.id == s.targets[0].id for b_ in body for n_ in ast.walk(b_)) else "_lst%d" % self.counter
 
